@@ -1,5 +1,6 @@
 import Yaql.Drv.Util
 import Yaql.Model.SharedObjs
+import Yaql.Model.SharedList
 /-! Driver for C18: runs `SharedObjs.machine` under a given schedule and reports, per thread, the
 result under the schedule, the schedule-independent prediction `den`, the solo result, and how many
 scheduled steps fell on a thread that had already finished. -/
@@ -126,7 +127,46 @@ def handleCase (c : Json) : Json :=
        ("baseSame", jb (decide (fin.shared.1 = base))),
        ("entries", jl (fin.shared.2.map fun e => jb (decide (e.2 = entry base e.1)))) ]
 
+/-! ### raw mutable host lists in the shared context (`Model/SharedList.lean`)
+
+case: `{"mode":"copy"|"inplace"|"restore","shared":[[[a,b],..],..],"threads":[[op,..],..],"sched":[..]}` with
+op = `["sortBy",v,sel,asc]` | `["read",v]`; reply: per-thread results under the schedule, `den`, wasted steps, the
+shared lists afterwards. -/
+
+def lmodeOf (s : String) : SharedList.SortMode :=
+  match s with
+  | "inplace" => .inPlace
+  | "restore" => .inPlaceRestore
+  | _ => .copy
+
+def lopOf (j : Json) : SharedList.Op :=
+  match asStr (item j 0) with
+  | "sortBy" => .sortBy (asNat (item j 1)) (selOf (item j 2)) (asBool (item j 3))
+  | _ => .read (asNat (item j 1))
+
+def loutJ : SharedList.Out → Json
+  | .rows rs => jl [js "rows", jl (rs.map rowJ)]
+  | .noVar => jl [js "noVar"]
+
+def loutsJ (o : List SharedList.Out) : Json := jl (o.map loutJ)
+
+def handleListCase (c : Json) : Json :=
+  let m := SharedList.machine (lmodeOf (jstr c "mode"))
+  let shared : SharedList.Shared := (jarr c "shared").map rowsOf
+  let ps : List SharedList.PState := (jarr c "threads").map fun t => { prog := (asArr t).map lopOf }
+  let sched := (jarr c "sched").map asNat
+  let sys : Sys SharedList.Shared SharedList.PState (List SharedList.Out) := ⟨shared, ps.map .running⟩
+  let (fin, wasted) := sched.foldl (init := (sys, 0)) fun (s, w) i =>
+    match s.threads[i]? with
+    | some (Thread.running _) => (step m s i, w)
+    | _ => (s, w + 1)
+  jo [ ("res", jl ((results fin).map fun | some o => loutsJ o | none => .null)),
+       ("den", jl (ps.map fun p => loutsJ (SharedList.den shared p))),
+       ("wasted", jn wasted),
+       ("shared", jl (fin.shared.map fun l => jl (l.map rowJ))) ]
+
 def handle (req : Json) : Json :=
-  jo [("cases", jl ((jarr req "cases").map handleCase))]
+  if jhas req "lists" then jo [("lists", jl ((jarr req "lists").map handleListCase))]
+  else jo [("cases", jl ((jarr req "cases").map handleCase))]
 
 end Yaql.Drv.C18
